@@ -191,3 +191,15 @@ PROPS['C19'] = dict(
                 'listed in the evidence as they are built.',
     trusted_base=['cmd.Cmd.parseline, shlex.split, click'], assumptions=[],
 )
+
+PROPS['C20'] = dict(
+    level='other', harness='h20', min_t1=50,
+    explanation='Contracts cannot quantify over interleavings. What is decided is the classical sufficient condition, as ownership / frame obligations generated from the '
+                'ast of /repo: every write site (attribute / item store, mutating call, memo cache, global) in every function reachable from the execution entry points is owned '
+                'by the execution (fresh local, self of a per-execution class, owned parameter) or carries an explicit hand-written justification; registries are not written after '
+                'import; threadsafety == 2. If every obligation holds, executions share no mutable state and every interleaving equals a serial order. A failed obligation is '
+                'reported with no-failing-input-found unless the bounded harness (deterministic two/three-thread schedules driven by a tick() BQL function) produces a schedule.',
+    trusted_base=['name-based conservative call graph', 'the ownership classification table PER_EXECUTION and the hand-written JUSTIFIED entries in contracts/c20.py',
+                  'CPython: single attribute / list-item stores are atomic'],
+    assumptions=['cursors are not shared between threads (DB-API level 2)'],
+)
